@@ -169,6 +169,18 @@ CLAIMED = {
         note=('The planner itself is not transcribed: its real output is validated as a trace. Known finding F11 (implied X after a '
               'record change) is recognised by exact emulation. Slices are bounded ones with step >= 1 (API restriction).'),
         technique='TLA+ spec + TLC model checking of the plan interpreter; TLC trace validation of real plans and results'),
+    'C03': dict(
+        category='model_checking', design='3/C03',
+        text=('TLC model checks the component grammar and parse machine of RP66V1 explicitly formatted records '
+              '(DlisEflr.tla: ordinary / invariant template attributes with any subset of characteristics, object cells with '
+              'overriding characteristics, absent attributes, trailing omission) against Resolve, and the splitting of record '
+              'sequences into logical files with encrypted records skipped (DlisLogical.tla); every terminal state is one '
+              'implementation test: encoded by an independent encoder with representation codes rotating through all supported '
+              'scalar and compound codes, counts 0..3 and units, decoded by the real ExplicitlyFormattedLogicalRecord and '
+              'compared cell by cell (source of count / code / units / value, or absent); every conformant record-kind sequence '
+              'is rendered as a whole file with a random physical layout and indexed by the real LogicalIndex.'),
+        note='Known findings F10a / F10b are identified by template / object shape. One CHANNEL set per logical file.',
+        technique='TLA+ spec + TLC model checking; one implementation test per terminal state of the model'),
 }
 
 NOT_YET = 'check not built yet in this session; planned per DESIGN.md section 3'
